@@ -110,6 +110,7 @@ struct RunConfig {
   int js_ext_held = 0;     // tokens another client of the same pool holds at that moment (it may return them)
   int js_ext_max = 0;      // how many tokens that client may hold at most
   int js_moves = 0;        // how many times it may take or return a token during the invocation
+  int js_byte = '+';       // the value of the tokens in the pool (the protocol allows any byte; clients write back what they read)
   // Edits applied by the environment while a command runs: (trigger cmd id, path, new content).
   std::vector<std::tuple<std::string, std::string, std::string>> edits_during;
 };
